@@ -63,89 +63,209 @@ def judgeFrom (Wmin : Nat) : Nat → List Nat → List (Nat × Bool) → Option 
 
 def judge (Wmin : Nat) (obs : List (Nat × Bool)) : Option (String × String) := judgeFrom Wmin 0 [] obs
 
-/-! ### delivery level (receive path)
+/-! ### delivery level (receive paths)
 
-What the network delivered is described by what the *peer* did, not by what the receiver
-computes: `genuine s` is the application record the peer protected under sequence number `s`
-(its payload is identified with `s`), `close s` the peer's close_notify alert, `forged`
-anything else (a modified copy, a record with a rewritten header, junk, a datagram from
-another address).  `out` is what the receiving application got from its call, and
-`stateChanged` whether the replay state (epoch, right edge, bitmap) differs from before the
-call. -/
+The history is described by what the *peer* and the *network* did and by what the receiving
+application got — not by what the receiver computes.
+
+`arrive`: the network put a datagram into the receiver's socket: `genuine s bytes` is the
+application record the peer protected under sequence number `s` with payload `bytes`,
+`close s` the peer's close_notify alert, `forged` anything else (a modified copy, a record
+with a rewritten header, junk, a datagram from another address).
+
+`call`: the application made one read call — `stream = true` for `Read` (a byte stream: a
+buffer smaller than the record leaves the rest for the next `Read`), `false` for `ReadFrom`
+(one record per call, what does not fit is discarded).  `bytes` is what the call handed
+over, `fin` how it ended (`ok`, or nothing more available / end of stream / error — possibly
+together with bytes), `stateChanged` whether the replay state (epoch, right edge, bitmap)
+differs from before the call.
+
+The socket is first-in first-out and a call works through it in order, so a call that hands
+over (the beginning of) record X has consumed everything that arrived before X, and a call
+that ends with `nothing` has consumed everything that arrived. -/
 
 inductive RxItem where
-  | genuine (seq : Nat)
+  | genuine (seq : Nat) (payload : List Nat)
   | close (seq : Nat)
   | forged
 deriving Repr, DecidableEq
 
-inductive RxOut where
-  | data (id : Nat)
-  | nothing
-  | eof
-  | error
+inductive Fin where
+  | ok | nothing | eof | error
 deriving Repr, DecidableEq
 
-structure RxObs where
-  item : RxItem
-  out : RxOut
-  stateChanged : Bool
+inductive Ev where
+  | arrive (it : RxItem)
+  | call (stream : Bool) (bytes : Option (List Nat)) (fin : Fin) (stateChanged : Bool)
 deriving Repr
 
 structure RxJudge where
-  seen : List Nat          -- sequence numbers accepted so far (0 = the peer's Finished)
-  closed : Bool            -- the peer's close_notify has been accepted
+  seen : List Nat                    -- sequence numbers accepted so far (0 = the peer's Finished)
+  pend : List (RxItem × Bool)        -- arrived and not known to be consumed, oldest first; the flag:
+                                     -- a stream call was made since it arrived
+  opened : List (Nat × List Nat)     -- records partly handed over by stream calls: (seq, bytes still to come)
+  owed : List (Nat × List Nat)       -- records a stream call may hold back for the next stream call (see `consume`)
+  held : List (Nat × List Nat)       -- the same for records that need not, but may, be accepted
+  done : List (List Nat)             -- payloads (partly) handed over so far
+  closed : Bool                      -- a stream call accepted the peer's close_notify
   forgedBefore : Bool
 
-/-- The property on an observed delivery history.
-  * `forged-delivered`      — a forged datagram made the application receive something;
-  * `forged-fatal`          — a forged datagram made the call fail, or a fresh genuine record
-                              after it is refused with an error;
-  * `forged-changed-state`  — a forged datagram changed the replay state;
-  * `not-sent`              — the application received a payload other than the one the peer
-                              put into that record;
-  * `delivered-twice`       — a record already handed over is handed over again;
-  * `fresh-rejected`        — a genuine record, never accepted, newer than all accepted ones or
-                              less than `Wmin` behind the newest, is not handed over.
-`streamPath` = the `Read` path, where an accepted close_notify legitimately ends delivery. -/
-def judgeRxFrom (Wmin : Nat) (streamPath : Bool) : Nat → RxJudge → List RxObs → Option (String × String)
-  | _, _, [] => none
-  | i, j, o :: rest =>
-    match o.item with
-    | .forged =>
-      match o.out with
-      | .data id => some ("forged-delivered", s!"delivery {i}: a forged datagram made the application receive payload {id}")
-      | .error => some ("forged-fatal", s!"delivery {i}: a forged datagram made the read call fail")
-      | out =>
-        -- after the peer's close_notify was accepted the stream path answers every call with EOF
-        if out == .eof && !(j.closed && streamPath) then
-          some ("forged-fatal", s!"delivery {i}: a forged datagram ended the stream")
-        else if o.stateChanged then some ("forged-changed-state", s!"delivery {i}: a forged datagram changed the replay state")
-        else judgeRxFrom Wmin streamPath (i + 1) { j with forgedBefore := true } rest
-    | .genuine s =>
-      match o.out with
-      | .data id =>
-        if id != s then some ("not-sent", s!"delivery {i}: record {s} handed over as payload {id}")
-        else if j.seen.contains s then some ("delivered-twice", s!"delivery {i}: record {s} handed to the application a second time")
-        else judgeRxFrom Wmin streamPath (i + 1) { j with seen := s :: j.seen } rest
-      | out =>
-        let due := !j.seen.contains s && (decide (s > newest j.seen) || decide (newest j.seen - s < Wmin))
-                    && !(j.closed && streamPath)
-        if due then
-          if j.forgedBefore && out == .error then
-            some ("forged-fatal", s!"delivery {i}: genuine fresh record {s} refused with an error after a forged datagram")
-          else some ("fresh-rejected", s!"delivery {i}: genuine fresh record {s} not handed over (newest accepted {newest j.seen}, window must cover {Wmin})")
-        else judgeRxFrom Wmin streamPath (i + 1) j rest
-    | .close s =>
-      match o.out with
-      | .data id => some ("not-sent", s!"delivery {i}: the close_notify record handed over as payload {id}")
-      | .eof =>
-        if j.seen.contains s && !(j.closed && streamPath) then
-          some ("delivered-twice", s!"delivery {i}: replayed close_notify {s} accepted again")
-        else judgeRxFrom Wmin streamPath (i + 1) { j with seen := if j.seen.contains s then j.seen else s :: j.seen, closed := true } rest
-      | _ => judgeRxFrom Wmin streamPath (i + 1) j rest
+def isPrefix : List Nat → List Nat → Bool
+  | [], _ => true
+  | _ :: _, [] => false
+  | a :: as, b :: bs => a == b && isPrefix as bs
 
-def judgeRx (Wmin : Nat) (streamPath : Bool) (obs : List RxObs) : Option (String × String) :=
-  judgeRxFrom Wmin streamPath 0 { seen := [0], closed := false, forgedBefore := false } obs
+def isInfix (xs : List Nat) : List Nat → Bool
+  | [] => xs.isEmpty
+  | b :: bs => isPrefix xs (b :: bs) || isInfix xs bs
+
+/-- a genuine record that must be handed over when it is reached: never accepted, newer than
+everything accepted or less than `Wmin` behind the newest (a stream call after the accepted
+close_notify owes nothing) -/
+def due (Wmin : Nat) (j : RxJudge) (stream : Bool) (s : Nat) : Bool :=
+  !j.seen.contains s && (decide (s > newest j.seen) || decide (newest j.seen - s < Wmin)) && !(j.closed && stream)
+
+def dropMsg (i : Nat) (j : RxJudge) (Wmin s : Nat) : String :=
+  s!"call {i}: genuine fresh record {s} not handed over (newest accepted {newest j.seen}, window must cover {Wmin})"
+
+/-- The datagrams `ds` were passed over by call `i` (it handed over something that arrived
+later, or found nothing more).  A due record among them is a violation — except that a stream
+call made after the record arrived may already have taken it out of the socket and keep it
+for the NEXT stream call (a stream may read ahead); then a datagram call does not see it.  Such
+a record counts as accepted now and is `owed`: the next stream call must begin with it. -/
+def consume (Wmin i : Nat) (stream : Bool) : RxJudge → List (RxItem × Bool) → Except (String × String) RxJudge
+  | j, [] => .ok j
+  | j, (.genuine s pl, sawStream) :: rest =>
+    if due Wmin j stream s then
+      if !stream && sawStream then consume Wmin i stream { j with seen := s :: j.seen, owed := j.owed ++ [(s, pl)] } rest
+      else .error ("fresh-rejected", dropMsg i j Wmin s)
+    else if !stream && sawStream && !j.seen.contains s then consume Wmin i stream { j with held := j.held ++ [(s, pl)] } rest
+    else consume Wmin i stream j rest
+  | j, _ :: rest => consume Wmin i stream j rest
+
+def isForged : RxItem → Bool
+  | .forged => true
+  | _ => false
+
+/-- split the pending datagrams at the first one satisfying `f`: (before, it, after) -/
+def splitAt (f : RxItem → Bool) : List (RxItem × Bool) → Option (List (RxItem × Bool) × RxItem × List (RxItem × Bool))
+  | [] => none
+  | x :: xs => if f x.1 then some ([], x.1, xs) else (splitAt f xs).map fun (b, y, a) => (x :: b, y, a)
+
+/-- bytes `bs` handed over by a stream call: the continuation (or, for `owed`, the beginning)
+of one of the listed records?  Returns the list without / with the shortened entry and what
+is still to come of that record. -/
+def takeFrom (bs : List Nat) : List (Nat × List Nat) → Option (List (Nat × List Nat) × Nat × List Nat)
+  | [] => none
+  | (s, rem) :: rest =>
+    if !bs.isEmpty && isPrefix bs rem then some (rest, s, rem.drop bs.length)
+    else (takeFrom bs rest).map fun (l, s', r') => ((s, rem) :: l, s', r')
+
+/-- a call ended without (further) bytes: `nothing` / `eof` / `error` -/
+def judgeFin (Wmin i : Nat) (j : RxJudge) (stream : Bool) (fin : Fin) (changed : Bool) :
+    Except (String × String) RxJudge :=
+  if fin != .ok && stream && !j.owed.isEmpty then
+    .error ("fresh-rejected", s!"call {i}: a genuine fresh record taken out of the socket earlier was not handed over")
+  else
+  match fin with
+  | .ok => .ok j
+  | .nothing =>
+    -- everything that arrived has been consumed
+    match consume Wmin i stream j j.pend with
+    | .error e => .error e
+    | .ok j' =>
+      if changed && !j.pend.isEmpty && j.pend.all (fun x => isForged x.1) then
+        .error ("forged-changed-state", s!"call {i}: forged datagrams changed the replay state")
+      else .ok { j' with pend := [] }
+  | .eof =>
+    if j.closed && stream then .ok j else
+    match splitAt (fun it => match it with | .close s => !j.seen.contains s | _ => false) j.pend with
+    | some (before, .close s, after) =>
+      match consume Wmin i stream j before with
+      | .error e => .error e
+      | .ok j' => .ok { j' with seen := s :: j'.seen, pend := after, closed := j'.closed || stream }
+    | _ =>
+      if j.pend.any (fun x => match x.1 with | .close _ => true | _ => false) then
+        .error ("delivered-twice", s!"call {i}: replayed close_notify accepted again")
+      else if j.pend.any (fun x => isForged x.1) then
+        .error ("forged-fatal", s!"call {i}: a forged datagram ended the stream")
+      else match consume Wmin i stream j j.pend with
+        | .error e => .error e
+        | .ok _ => .ok j
+  | .error =>
+    if j.pend.any (fun x => isForged x.1) then
+      .error ("forged-fatal", s!"call {i}: a forged datagram made the read call fail")
+    else match consume Wmin i stream j j.pend with
+      | .error e =>
+        if j.forgedBefore then
+          .error ("forged-fatal", s!"call {i}: a genuine fresh record is refused with an error after a forged datagram")
+        else .error e
+      | .ok j' => .ok { j' with pend := [] }
+
+/-- The property on an observed history.
+  * `forged-delivered`      — bytes no record of the peer accounts for were handed over while a
+                              forged datagram was waiting;
+  * `forged-fatal`          — a forged datagram made a call fail or ended the stream, or a fresh
+                              genuine record after it is refused with an error;
+  * `forged-changed-state`  — a call that consumed only forged datagrams changed the replay state;
+  * `not-sent`              — the bytes handed over are neither the continuation of a record
+                              partly handed over nor the beginning of a record that arrived;
+  * `delivered-twice`       — bytes of a record already handed over are handed over again;
+  * `fresh-rejected`        — a genuine record, never accepted, newer than all accepted ones or
+                              less than `Wmin` behind the newest, was consumed without being
+                              handed over. -/
+def judgeEvs (Wmin : Nat) : Nat → RxJudge → List Ev → Option (String × String)
+  | _, _, [] => none
+  | i, j, .arrive it :: rest =>
+    judgeEvs Wmin i { j with pend := j.pend ++ [(it, false)], forgedBefore := j.forgedBefore || isForged it } rest
+  | i, j, .call stream bytes fin changed :: rest =>
+    let next (r : Except (String × String) RxJudge) : Option (String × String) :=
+      match r with
+      | .error e => some e
+      | .ok j' => judgeEvs Wmin (i + 1) (if stream then { j' with pend := j'.pend.map fun x => (x.1, true) } else j') rest
+    match bytes with
+    | none => next (judgeFin Wmin i j stream fin changed)
+    | some bs =>
+      -- a stream call: first what an earlier stream call holds back, then the rest of a record partly handed over
+      match (if stream then takeFrom bs j.owed else none) with
+      | some (owed', s, rem) =>
+        next (judgeFin Wmin i { j with owed := owed', opened := if rem.isEmpty then j.opened else j.opened ++ [(s, rem)],
+                                       done := (bs ++ rem) :: j.done } stream fin changed)
+      | none =>
+      if stream && !j.owed.isEmpty && !bs.isEmpty then
+        some ("fresh-rejected", s!"call {i}: a genuine fresh record taken out of the socket earlier was not handed over")
+      else
+      match (if stream then takeFrom bs j.opened else none) with
+      | some (opened', s, rem) =>
+        next (judgeFin Wmin i { j with opened := if rem.isEmpty then opened' else opened' ++ [(s, rem)] } stream fin changed)
+      | none =>
+      match (if stream then takeFrom bs (j.held.filter fun x => !j.seen.contains x.1) else none) with
+      | some (_, s, rem) =>
+        next (judgeFin Wmin i { j with seen := s :: j.seen, opened := if rem.isEmpty then j.opened else j.opened ++ [(s, rem)],
+                                       done := (bs ++ rem) :: j.done } stream fin changed)
+      | none =>
+        -- the beginning of a record that arrived and was never accepted
+        let fresh (it : RxItem) : Bool := match it with
+          | .genuine s pl => !j.seen.contains s && isPrefix bs pl && (!bs.isEmpty || !stream)
+          | _ => false
+        match splitAt fresh j.pend with
+        | some (before, .genuine s pl, after) =>
+          match consume Wmin i stream j before with
+          | .error e => some e
+          | .ok j' =>
+            let opened' := if stream && bs.length < pl.length then j'.opened ++ [(s, pl.drop bs.length)] else j'.opened
+            next (judgeFin Wmin i { j' with seen := s :: j'.seen, pend := after, opened := opened', done := pl :: j'.done }
+                    stream fin changed)
+        | _ =>
+          if bs.isEmpty && stream then next (judgeFin Wmin i j stream fin changed)
+          else if j.done.any (isInfix bs) ||
+              j.pend.any (fun x => match x.1 with | .genuine s pl => j.seen.contains s && isPrefix bs pl | _ => false) then
+            some ("delivered-twice", s!"call {i}: bytes of a record already handed over are handed over again")
+          else if j.pend.any (fun x => isForged x.1) then
+            some ("forged-delivered", s!"call {i}: a forged datagram made the application receive bytes the peer did not send")
+          else some ("not-sent", s!"call {i}: the bytes handed over are neither the rest of a record partly handed over nor the beginning of a record that arrived")
+
+def judgeRx (Wmin : Nat) (evs : List Ev) : Option (String × String) :=
+  judgeEvs Wmin 0 { seen := [0], pend := [], opened := [], owed := [], held := [], done := [], closed := false, forgedBefore := false } evs
 
 end Gotlcp.Spec.ReplaySpec
